@@ -42,7 +42,8 @@ def make_fluid(spec):
         elif kind == "linear":
             props[name] = FluidPropertyLinear(p[1], p[2])
         elif kind == "interextra":
-            props[name] = FluidPropertyInterExtra(np.array(p[1], dtype=float), np.array(p[2], dtype=float))
+            props[name] = FluidPropertyInterExtra(np.array(p[1], dtype=float), np.array(p[2], dtype=float),
+                                                  **({"method": p[3]} if len(p) > 3 else {}))
         elif kind == "polynominal":
             props[name] = FluidPropertyPolynominal(np.array(p[1], dtype=float), np.array(p[2], dtype=float), int(p[3]))
         elif kind == "sutherland":
